@@ -246,18 +246,21 @@ impl<F: Filter, S: PtpInstanceStateMutex> PtpInstance<F, S> {
         self.state.with_mut(|state| {
             state.bmca(
                 ports,
-                Duration::from_seconds(
-                    2f64.powi(self.log_bmca_interval.load(Ordering::Relaxed) as i32),
-                ),
+                Duration::from_seconds(2f64.powi(self.log_bmca_interval())),
             );
         });
     }
 
     /// Time to wait between calls to [`PtpInstance::bmca`]
     pub fn bmca_interval(&self) -> core::time::Duration {
-        core::time::Duration::from_secs_f64(
-            2f64.powi(self.log_bmca_interval.load(Ordering::Relaxed) as i32),
-        )
+        core::time::Duration::from_secs_f64(2f64.powi(self.log_bmca_interval()))
+    }
+
+    /// log2 of the BMCA interval in seconds. Until the first port is added this is
+    /// `i8::MAX`, which no duration type can hold: bounded so that an instance
+    /// without ports has a very long interval instead of a panic.
+    fn log_bmca_interval(&self) -> i32 {
+        (self.log_bmca_interval.load(Ordering::Relaxed) as i32).min(62)
     }
 
     /// Set the clock quality of the instance
